@@ -291,7 +291,7 @@ class MultiFit(FitBase):
                 _upper = _data_indices[_j + 1]
                 _combined_property[_lower:_upper, _lower:_upper] = _single_fit_property
             for _error_dict in self._shared_error_dicts.values():
-                if _error_dict["axis"] != axis_name:
+                if _error_dict["axis"] != axis_name or not _error_dict["enabled"]:
                     continue
                 _error = _error_dict["err"]
                 for _j, _fit_index_j in enumerate(_error.fit_indices):
@@ -891,9 +891,31 @@ class MultiFit(FitBase):
         if _keys:
             warnings.warn("Could not assign all parameter latex names to single fits. Leftover: {}".format(_keys))
 
+    def _set_shared_error_enabled(self, err_id, enabled):
+        _error_dict = self._shared_error_dicts[err_id]
+        _error_dict["enabled"] = enabled
+        for _fit_index in _error_dict["err"].fit_indices:
+            if enabled:
+                self._fits[_fit_index].enable_error(err_id=err_id)
+            else:
+                self._fits[_fit_index].disable_error(err_id=err_id)
+        # the off-diagonal blocks of the combined covariance matrices have changed
+        self._nexus.get("%s_cov_mat" % _error_dict["axis"]).mark_for_update()
+        self._on_error_change()
+
     def disable_error(self, err_id):
-        for _fit in self._fits:
-            _fit.disable_error(err_id=err_id)
+        if err_id in self._shared_error_dicts:
+            self._set_shared_error_enabled(err_id, enabled=False)
+        else:
+            for _fit in self._fits:
+                _fit.disable_error(err_id=err_id)
+
+    def enable_error(self, err_id):
+        if err_id in self._shared_error_dicts:
+            self._set_shared_error_enabled(err_id, enabled=True)
+        else:
+            for _fit in self._fits:
+                _fit.enable_error(err_id=err_id)
 
     def fix_parameter(self, name, value=None):
         self._fitter.fix_parameter(name=name, value=value)
